@@ -150,9 +150,9 @@ theorem Pay.subIfdsLoop (t : Tag) (buf : Bytes) (n i : Nat) (r r' : R) (hi : 4 *
       exact ((Pay.addTag r _).trans this).weaken (by push_cast; omega)
     · simp only [Outcome.ok.injEq] at h; rw [← h]; exact (Pay.refl r).weaken (by omega)
 
-theorem readTagValue_ok (r : R) (t : Tag) (h : (readTagValue r t).err = none) :
-    Pay (-((readTagValue r t).buf.length : Int)) r (readTagValue r t).r := by
-  unfold Exif.readTagValue at h ⊢
+theorem readTagValue0_ok (r : R) (t : Tag) (h : (readTagValue0 r t).err = none) :
+    Pay (-((readTagValue0 r t).buf.length : Int)) r (readTagValue0 r t).r := by
+  unfold Exif.readTagValue0 at h ⊢
   simp only [] at h ⊢
   have h0 : Fr r (if t.isEmbedded then { r with hazard := true } else r) := by split <;> exact ⟨rfl, rfl, Nat.le_refl _⟩
   generalize (if t.isEmbedded then { r with hazard := true } else r) = r0 at h0 h ⊢
@@ -167,6 +167,11 @@ theorem readTagValue_ok (r : R) (t : Tag) (h : (readTagValue r t).err = none) :
       have := fastRead_ok r1 t.size h
       rw [this.2]
       exact ((h0.pay.trans h1.pay).trans this.1).weaken (by omega)
+
+theorem readTagValue_ok (r : R) (t : Tag) (h : (readTagValue r t).err = none) :
+    Pay (-((readTagValue r t).buf.length : Int)) r (readTagValue r t).r := by
+  have := readTagValue0_ok r t h
+  exact ⟨this.pos, this.mono, this.w⟩
 
 theorem Pay.readSubIfds (r r' : R) (t : Tag) (h : readSubIfds r t = .ok r') : Pay 0 r r' := by
   unfold Exif.readSubIfds at h
